@@ -395,6 +395,12 @@ def compare_one(ctx, W, case, real, model):
         ctx.stat("skipped-inverse-of-zero-scaling")
         ctx.case(case, nontrivial=False)
         return
+    if isinstance(exact_cov(W, case), str):
+        # the script inverts a singular operator (e.g. a diagonal with zero entries): it denotes no matrix; NumPy yields inf/nan
+        # where the exact model has 0 - not compared (documented as the caller's responsibility)
+        ctx.stat("skipped-no-matrix-semantics")
+        ctx.case(case, nontrivial=False)
+        return
     if "irrational" in model:
         ctx.stat("model-irrational(oracle only)")
         ctx.case(case, nontrivial="error" not in real)
